@@ -46,7 +46,13 @@ EXPLANATION = (
     '_parse, abstracted to its sequence of reads / expectations / tests / recursive calls, is a sentence of the cfg grammar pinned by the '
     'project tests (trailing comma = malformed) and builds the production\'s IR from the right payloads.  '
     'Every function is first brought into one source-to-source normal form (module literal constants inlined, calls bound to signatures, walrus '
-    'and condition locals resolved, list-builder helpers inlined, m.groups()/named groups/lastgroup reduced to m.group(k)); a finding is reported '
+    'and condition locals resolved, list-builder helpers inlined, m.groups()/named groups/lastgroup reduced to m.group(k); value helpers and '
+    'methods of the data class that read as one conditional expression (tests, returns, first-match search with early return) are read in place; an '
+    'inner loop over the SAME iterator object in tail position is the state flag it stands for; `return K(a).M()` with a plain private class K is '
+    'the function with closures it stands for (only if every attribute written is rewritten before it is read after each recursive call); an '
+    'anchored finite-language regex match is the prefix chain of its strings in priority order; release / pre-release lists joined after the token '
+    'loop are read by the join (padding, -1, identifiers; count = length before padding)); split(): the parts come from str.split/rsplit with the '
+    'constant separator "," and no limit (any other constant separator or limit is a violation, other producers are undecided); a finding is reported '
     'only when every statement and test of the judged region was classified (closed world), otherwise the rule is undecided.  Also decided: '
     '`<=` with a pre-release bound keeps the version itself (next_ver drops the pre-release); a requirement without constraints still applies '
     'the pre-release gate; the matcher reads the candidate only through SemVer(); the comparison core does not select results by comparator '
@@ -636,6 +642,263 @@ class _NormalForm(ast.NodeTransformer):
         return node
 
 
+def _tail_position(body: T.List[ast.stmt], target: ast.stmt) -> bool:
+    """True when `target` is in tail position of `body`: no statement of `body` can run after it (it is the last statement of its block,
+    and every enclosing block up to `body` is the last statement of an if / elif chain in tail position)."""
+    if not body:
+        return False
+    last = body[-1]
+    if last is target:
+        return True
+    if isinstance(last, ast.If):
+        return _tail_position(last.body, target) or _tail_position(last.orelse, target)
+    return False
+
+
+class _BreakToFlag(ast.NodeTransformer):
+    """Inside the body of a loop that becomes the `if FLAG:` arm of its outer loop: `break` -> `FLAG = False; continue`."""
+
+    def __init__(self, flag: str):
+        self.flag = flag
+
+    def visit_Break(self, n: ast.Break) -> T.Any:
+        return [ast.copy_location(ast.Assign(targets=[ast.Name(id=self.flag, ctx=ast.Store())], value=ast.Constant(False)), n), ast.copy_location(ast.Continue(), n)]
+
+    def visit_For(self, n: ast.For) -> ast.AST:
+        return n     # a break of a nested loop belongs to that loop
+
+    def visit_While(self, n: ast.While) -> ast.AST:
+        return n
+
+
+def _shared_iterator_to_flag(fn: ast.FunctionDef) -> ast.FunctionDef:
+    """Normal form for "nested consumption of a shared iterator" (state flag <-> inner loop over the SAME iterator object):
+
+        IT = E                                   FLAG = False
+        for T in IT:                             for T in E:
+            ...                                      if FLAG:
+                for T2 in IT:         <->                B2[T2 := T; break := FLAG = False; continue]
+                    B2                                   continue
+                                                     ...
+                                                         FLAG = True
+
+    Sound when IT is bound once and only iterated by these two loops, the inner loop has no else and stands in tail position of the outer
+    body (nothing of the outer iteration runs after it), the two targets have the same shape, the inner names are not read outside the inner
+    loop and the outer names not inside it.  Exhausting IT inside ends the outer loop too - as the flag form does at the end of the input.
+    Anything else is left as written."""
+    for k, st in enumerate(fn.body):
+        if not (isinstance(st, ast.Assign) and len(st.targets) == 1 and isinstance(st.targets[0], ast.Name) and isinstance(st.value, ast.Call)):
+            continue
+        it = st.targets[0].id
+        uses = [n for n in ast.walk(fn) if isinstance(n, ast.Name) and n.id == it and n is not st.targets[0]]
+        outer = [x for x in fn.body[k + 1:] if isinstance(x, ast.For) and isinstance(x.iter, ast.Name) and x.iter.id == it]
+        if len(outer) != 1 or outer[0].orelse:
+            continue
+        o = outer[0]
+        inner = [x for x in ast.walk(o) if isinstance(x, ast.For) and x is not o and isinstance(x.iter, ast.Name) and x.iter.id == it]
+        if len(inner) != 1 or len(uses) != 2 or inner[0].orelse or not _tail_position(o.body, inner[0]):
+            continue
+        i = inner[0]
+        names = lambda t: [x.id for x in ast.walk(t) if isinstance(x, ast.Name)]     # noqa: E731
+        if ast.dump(_Rename({a: ast.Name(id=b, ctx=ast.Load()) for a, b in zip(names(i.target), names(o.target))}).visit(copy.deepcopy(i.target))) != ast.dump(o.target) \
+                or len(set(names(i.target))) != len(names(i.target)) or len(names(i.target)) != len(names(o.target)):
+            continue
+        inside = {id(n) for n in ast.walk(i)}
+        if any(isinstance(n, ast.Name) and n.id in names(i.target) and id(n) not in inside for n in ast.walk(fn)) and names(i.target) != names(o.target):
+            continue     # an inner name is read outside the inner loop
+        if any(isinstance(n, ast.Name) and n.id in names(o.target) and n.id not in names(i.target) for b in i.body for n in ast.walk(b)):
+            continue     # the inner body reads the outer loop variables (stale values)
+        if any(isinstance(n, (ast.Return, ast.FunctionDef, ast.Lambda)) for b in i.body for n in ast.walk(b)):
+            continue
+        flag = f'{it}__inside'
+        ren = {a: ast.Name(id=b, ctx=ast.Load()) for a, b in zip(names(i.target), names(o.target))}
+        arm: T.List[ast.stmt] = []
+        for b in copy.deepcopy(i.body):
+            r = _BreakToFlag(flag).visit(_Rename(ren).visit(b))
+            arm.extend(r if isinstance(r, list) else [r])
+        arm.append(ast.Continue())
+        setf = ast.copy_location(ast.Assign(targets=[ast.Name(id=flag, ctx=ast.Store())], value=ast.Constant(True)), i)
+
+        class Swap(ast.NodeTransformer):
+            def visit_For(self, n: ast.For) -> ast.AST:
+                if n is i:
+                    return setf
+                self.generic_visit(n)
+                return n
+        o2 = Swap().visit(o)
+        o2.iter = st.value
+        o2.body = [ast.copy_location(ast.If(test=ast.Name(id=flag, ctx=ast.Load()), body=arm, orelse=[]), o)] + list(o2.body)
+        fn.body[k] = ast.copy_location(ast.Assign(targets=[ast.Name(id=flag, ctx=ast.Store())], value=ast.Constant(False)), st)
+        ast.fix_missing_locations(fn)
+        return fn
+    return fn
+
+
+class _SelfAttrs(ast.NodeTransformer):
+    """Inside a method of a method object: `self.X` -> the local / parameter that stands for the attribute, `self.H(args)` -> `H(args)`,
+    the recursive entry `self.M()` -> the wrapper call.  A bare `self` that remains makes the reading fail."""
+
+    def __init__(self, me: str, attr_as: T.Dict[str, ast.AST], helpers: T.Set[str], entry: str, wrapper_call: ast.Call):
+        self.me, self.attr_as, self.helpers, self.entry, self.wrapper_call = me, attr_as, helpers, entry, wrapper_call
+        self.bad = False
+
+    def visit_Call(self, c: ast.Call) -> ast.AST:
+        if isinstance(c.func, ast.Attribute) and isinstance(c.func.value, ast.Name) and c.func.value.id == self.me:
+            if c.func.attr == self.entry and not c.args and not c.keywords:
+                return ast.copy_location(copy.deepcopy(self.wrapper_call), c)
+            if c.func.attr in self.helpers:
+                c.args = [self.visit(a) for a in c.args]
+                c.keywords = [ast.keyword(arg=k.arg, value=self.visit(k.value)) for k in c.keywords]
+                c.func = ast.copy_location(ast.Name(id=c.func.attr, ctx=ast.Load()), c.func)
+                return c
+        self.generic_visit(c)
+        return c
+
+    def visit_Attribute(self, n: ast.Attribute) -> ast.AST:
+        if isinstance(n.value, ast.Name) and n.value.id == self.me:
+            if n.attr in self.attr_as:
+                r = copy.deepcopy(self.attr_as[n.attr])
+                if isinstance(r, ast.Name):
+                    r.ctx = n.ctx
+                elif not isinstance(n.ctx, ast.Load):
+                    self.bad = True
+                return ast.copy_location(r, n)
+            self.bad = True
+            return n
+        self.generic_visit(n)
+        return n
+
+    def visit_Name(self, n: ast.Name) -> ast.AST:
+        if n.id == self.me:
+            self.bad = True
+        return n
+
+
+def _method_object_to_function(mod: Module, fn: ast.FunctionDef) -> T.Optional[ast.FunctionDef]:
+    """Normal form for "replace function by method object" (a function with closures <-> a private class whose instance holds the former
+    locals):  `def f(a): return K(a).M()`  with K a plain class of this module  ->  `def f(a):` + one closure per helper method (`nonlocal`
+    for the attributes it writes) + the body of M, where attributes bound once by __init__ to a constructor argument are that argument,
+    written attributes are locals, `self.H(..)` is `H(..)` and the recursion `self.M()` is `f(a)`.
+    Instance attributes are shared between recursion levels, locals are not: the reading is taken only if, after every recursive call, every
+    written attribute is written again before it is read (CFG: no read reachable from the call without passing a helper that rewrites all
+    of them).  Returns None when the function is not of this shape (it is then read as written)."""
+    body = [x for x in fn.body if not (isinstance(x, ast.Expr) and isinstance(x.value, ast.Constant))]
+    if not (len(body) == 1 and isinstance(body[0], ast.Return) and isinstance(body[0].value, ast.Call)):
+        return None
+    call = body[0].value
+    if not (isinstance(call.func, ast.Attribute) and isinstance(call.func.value, ast.Call) and isinstance(call.func.value.func, ast.Name) and not call.args and not call.keywords):
+        return None
+    ctor = call.func.value
+    kname, entry = ctor.func.id, call.func.attr     # type: ignore[attr-defined]
+    if not mod.has_cls(kname):
+        return None
+    k = mod.cls(kname)
+    if k.decorator_list or any(norm(b) != 'object' for b in k.bases) or k.keywords:
+        return None
+    meths = {x.name: x for x in k.body if isinstance(x, ast.FunctionDef)}
+    if any(not (isinstance(x, ast.FunctionDef) or (isinstance(x, ast.Expr) and isinstance(x.value, ast.Constant)) or (isinstance(x, ast.AnnAssign) and x.value is None)) for x in k.body):
+        return None
+    if '__init__' not in meths or entry not in meths or any(m.decorator_list or m.args.vararg or m.args.kwarg or not m.args.args for m in meths.values()):
+        return None
+    if len(meths[entry].args.args) != 1 or any(n.startswith('__') and n != '__init__' for n in meths):
+        return None
+    init = meths['__init__']
+    try:
+        bound = bind_call(ast.Call(func=ast.Attribute(value=ast.Name(id='x', ctx=ast.Load()), attr='__init__', ctx=ast.Load()), args=ctor.args, keywords=ctor.keywords), init)
+    except Undecided:
+        return None
+    me0 = init.args.args[0].arg
+    attr_init: T.Dict[str, ast.AST] = {}
+    for st in init.body:
+        if isinstance(st, ast.Expr) and isinstance(st.value, ast.Constant):
+            continue
+        tgt = st.targets[0] if isinstance(st, ast.Assign) and len(st.targets) == 1 else st.target if isinstance(st, ast.AnnAssign) and st.value is not None else None
+        if not (isinstance(tgt, ast.Attribute) and isinstance(tgt.value, ast.Name) and tgt.value.id == me0 and tgt.attr not in attr_init):
+            return None
+        v = st.value     # type: ignore[union-attr]
+        if isinstance(v, ast.Name) and v.id in bound and isinstance(bound[v.id], (ast.Name, ast.Constant)):
+            attr_init[tgt.attr] = bound[v.id]
+        elif isinstance(v, ast.Constant):
+            attr_init[tgt.attr] = v
+        else:
+            return None
+    others = {n: m for n, m in meths.items() if n != '__init__'}
+    written = {t.attr for m in others.values() for t in ast.walk(m) if isinstance(t, ast.Attribute) and isinstance(t.ctx, (ast.Store, ast.Del))
+               and isinstance(t.value, ast.Name) and t.value.id == m.args.args[0].arg}
+    if not written <= set(attr_init):
+        return None
+    helpers = set(others) - {entry}
+    mlocals = {n.id for m in others.values() for n in ast.walk(m) if isinstance(n, ast.Name) and isinstance(n.ctx, ast.Store)} | \
+        {a.arg for m in others.values() for a in m.args.args[1:]} | {a.arg for a in fn.args.args}
+    if (written | helpers) & mlocals or (written & helpers) or fn.name in mlocals | written | helpers:
+        return None
+    attr_as: T.Dict[str, ast.AST] = {}
+    for x, v in attr_init.items():
+        attr_as[x] = ast.Name(id=x, ctx=ast.Load()) if x in written else v
+    # recursion happens in the entry method only, and written attributes are dead after it
+    E = meths[entry]
+    me = E.args.args[0].arg
+    is_rec = lambda c, who=me: isinstance(c, ast.Call) and isinstance(c.func, ast.Attribute) and c.func.attr == entry and isinstance(c.func.value, ast.Name) and c.func.value.id == who     # noqa: E731
+    if any(is_rec(c, h.args.args[0].arg) for n, h in others.items() if n != entry for c in ast.walk(h)):
+        return None
+
+    def rewrites_all(h: ast.FunctionDef) -> bool:
+        """A straight-line helper whose first statement (re)binds every written attribute."""
+        hb = [x for x in h.body if not (isinstance(x, ast.Expr) and isinstance(x.value, ast.Constant))]
+        if not hb or not isinstance(hb[0], ast.Assign):
+            return False
+        sme = h.args.args[0].arg
+        stored = {t.attr for t in ast.walk(hb[0].targets[0]) if isinstance(t, ast.Attribute) and isinstance(t.ctx, ast.Store) and isinstance(t.value, ast.Name) and t.value.id == sme}
+        reads = {t.attr for t in ast.walk(hb[0].value) if isinstance(t, ast.Attribute) and isinstance(t.value, ast.Name) and t.value.id == sme}
+        return written <= stored and not (reads & written)
+    killers = {n for n, h in others.items() if n != entry and rewrites_all(h)}
+    g = CFG(E)
+    reads_w = lambda node: node is not None and any(isinstance(t, ast.Attribute) and isinstance(t.ctx, ast.Load) and t.attr in written and isinstance(t.value, ast.Name)     # noqa: E731
+                                                      and t.value.id == me for t in ast.walk(node))
+    calls_helper = lambda node, names: node is not None and any(isinstance(c, ast.Call) and isinstance(c.func, ast.Attribute) and c.func.attr in names     # noqa: E731
+                                                                 and isinstance(c.func.value, ast.Name) and c.func.value.id == me for c in ast.walk(node))
+    kill_nodes = [n for n in g.nodes if n.kind == 'stmt' and calls_helper(n.ast, killers) and not reads_w(n.ast)]
+    rec_nodes = g.nodes_with_call(is_rec)
+    readers = {n.id for n in g.nodes if reads_w(n.expr()) or calls_helper(n.expr(), helpers - killers)}
+    for rn in rec_nodes:
+        if reads_w(rn.expr()) or calls_helper(rn.expr(), helpers):
+            return None     # the statement of the recursive call itself also touches the shared attributes
+        if g.reachable([rn], kill_nodes) & readers:
+            return None
+    # build the function
+    wrapper_call = ast.Call(func=ast.Name(id=fn.name, ctx=ast.Load()), args=[copy.deepcopy(a) for a in ctor.args], keywords=[copy.deepcopy(kw) for kw in ctor.keywords])
+    new_body: T.List[ast.stmt] = []
+    first_kills = bool(E.body) and any(calls_helper(x, killers) and not reads_w(x) for x in [y for y in E.body if not (isinstance(y, ast.Expr) and isinstance(y.value, ast.Constant))][:1])
+    if not first_kills:
+        for x in sorted(written):
+            new_body.append(ast.Assign(targets=[ast.Name(id=x, ctx=ast.Store())], value=copy.deepcopy(attr_init[x])))
+    for n, h in others.items():
+        if n == entry:
+            continue
+        h2 = copy.deepcopy(h)
+        t = _SelfAttrs(h2.args.args[0].arg, attr_as, helpers, entry, wrapper_call)
+        h2.body = [t.visit(x) for x in h2.body]
+        if t.bad:
+            return None
+        wr = sorted({x.id for b in h2.body for x in ast.walk(b) if isinstance(x, ast.Name) and isinstance(x.ctx, ast.Store) and x.id in written})
+        if wr:
+            doc = 1 if h2.body and isinstance(h2.body[0], ast.Expr) and isinstance(h2.body[0].value, ast.Constant) else 0
+            h2.body.insert(doc, ast.Nonlocal(names=wr))
+        h2.args.args = h2.args.args[1:]
+        new_body.append(h2)
+    e2 = copy.deepcopy(E)
+    t = _SelfAttrs(me, attr_as, helpers, entry, wrapper_call)
+    ebody = [t.visit(x) for x in e2.body]
+    if t.bad:
+        return None
+    out = copy.deepcopy(fn)
+    out.body = new_body + ebody
+    for n0 in ast.walk(out):
+        if not hasattr(n0, 'lineno') and isinstance(n0, (ast.stmt, ast.expr)):
+            ast.copy_location(n0, E)
+    return ast.fix_missing_locations(out)
+
+
 _NF_CACHE: T.Dict[T.Tuple[str, str], ast.FunctionDef] = {}
 
 
@@ -644,9 +907,11 @@ def nf(mod: Module, q: str) -> ast.FunctionDef:
     key = (mod.digest + mod.rel, q)
     if key not in _NF_CACHE:
         fn = copy.deepcopy(mod.func(q))
+        if '.' not in q:
+            fn = _method_object_to_function(mod, fn) or fn     # type: ignore[arg-type]
         t = _NormalForm(mod, fn, q.split('.')[0] if '.' in q else None)     # type: ignore[arg-type]
         t.root = fn     # type: ignore[attr-defined]
-        _NF_CACHE[key] = ast.fix_missing_locations(t.visit(fn))
+        _NF_CACHE[key] = _shared_iterator_to_flag(ast.fix_missing_locations(t.visit(fn)))
     return _NF_CACHE[key]
 
 
@@ -671,6 +936,109 @@ def _is_folded(ctx: RuleCtx, mod: Module, e: ast.AST) -> bool:
         return False
 
 
+def _finite_language(pattern: str, flags: int = 0) -> T.Optional[T.List[str]]:
+    """The strings of a regex whose language is finite and quantifier-free (literals, small positive character classes, alternations, groups),
+    in the priority order a backtracking matcher tries them; None for any other pattern.  A regex-language fact (sa.rx parse tree)."""
+    sre_c = rx.sre_c
+
+    def seqs(items: T.Any) -> T.Optional[T.List[str]]:
+        res = ['']
+        for op, av in items:
+            alts: T.Optional[T.List[str]]
+            if op is sre_c.LITERAL:
+                alts = [chr(av)]
+            elif op is sre_c.IN:
+                alts = []
+                for o2, a2 in av:
+                    if o2 is sre_c.LITERAL:
+                        alts.append(chr(a2))
+                    elif o2 is sre_c.RANGE and a2[1] - a2[0] < 64:
+                        alts.extend(chr(c) for c in range(a2[0], a2[1] + 1))
+                    else:
+                        return None     # negated class / category: not a finite table of prefixes
+            elif op is sre_c.BRANCH:
+                alts = []
+                for b in av[1]:
+                    sb = seqs(b)
+                    if sb is None:
+                        return None
+                    alts.extend(sb)
+            elif op is sre_c.SUBPATTERN:
+                alts = seqs(av[3])
+            elif op is sre_c.AT and str(av) in ('AT_BEGINNING', 'AT_BEGINNING_STRING'):
+                alts = ['']
+            else:
+                return None
+            if alts is None:
+                return None
+            res = [r + x for r in res for x in alts]
+            if len(res) > 256:
+                return None
+        return res
+    if flags & ~_re.UNICODE:
+        return None
+    return seqs(rx.parse(pattern, flags))
+
+
+def _prefix_match_call(ctx: RuleCtx, mod: Module, e: ast.AST, var: str) -> T.Optional[T.List[str]]:
+    """`RE.match(var)` / `re.match(PATTERN, var)` with a constant finite-language pattern (catalogue B3: prefix probing by startswith <-> one
+    anchored regex): the pattern's strings in priority order - the match is the first of them that is a prefix of the text."""
+    if not (isinstance(e, ast.Call) and isinstance(e.func, ast.Attribute) and e.func.attr == 'match' and not e.keywords):
+        return None
+    try:
+        if norm(e.func.value) == 're' and len(e.args) == 2 and norm(e.args[1]) == var and is_const(e.args[0]) and isinstance(const_of(e.args[0]), str):
+            return _finite_language(const_of(e.args[0]))
+        if len(e.args) == 1 and norm(e.args[0]) == var:
+            r = _folded(ctx, mod, e.func.value)
+            if isinstance(r, Regex):
+                return _finite_language(r.pattern, r.flags)
+    except Undecided:
+        return None
+    return None
+
+
+class _MatchDenote(ast.NodeTransformer):
+    """For one class of texts (the match has length k): `M.group()` / `M.group(0)` / `M[0]` -> var[0:k], `M.end()` -> k, `M.start()` -> 0,
+    `M.span()` -> (0, k), `len(var[0:k])` -> k, where M is the recognised prefix-match call on var."""
+
+    def __init__(self, is_match: T.Callable[[ast.AST], bool], var: str, k: T.Optional[int]):
+        self.is_match, self.var, self.k = is_match, var, k
+        self.unmatched_use = False
+
+    def _head(self) -> ast.AST:
+        return ast.Subscript(value=ast.Name(id=self.var, ctx=ast.Load()), slice=ast.Slice(lower=ast.Constant(0), upper=ast.Constant(self.k), step=None), ctx=ast.Load())
+
+    def visit_Call(self, c: ast.Call) -> ast.AST:
+        self.generic_visit(c)
+        if isinstance(c.func, ast.Attribute) and self.is_match(c.func.value) and not c.keywords and (not c.args or (len(c.args) == 1 and isinstance(c.args[0], ast.Constant) and c.args[0].value == 0)):
+            if self.k is None:
+                self.unmatched_use = True
+                return c
+            if c.func.attr == 'group':
+                return self._head()
+            if c.func.attr == 'end':
+                return ast.Constant(self.k)
+            if c.func.attr == 'start':
+                return ast.Constant(0)
+            if c.func.attr == 'span':
+                return ast.Tuple(elts=[ast.Constant(0), ast.Constant(self.k)], ctx=ast.Load())
+        if norm(c.func) == 'len' and len(c.args) == 1 and self.k is not None and norm(c.args[0]) == norm(self._head()):
+            return ast.Constant(self.k)
+        return c
+
+    def visit_Subscript(self, n: ast.Subscript) -> ast.AST:
+        self.generic_visit(n)
+        if self.is_match(n.value) and isinstance(n.slice, ast.Constant) and n.slice.value == 0:
+            if self.k is None:
+                self.unmatched_use = True
+                return n
+            return self._head()
+        if isinstance(n.value, ast.Tuple) and isinstance(n.slice, ast.Constant) and isinstance(n.slice.value, int) and not isinstance(n.slice.value, bool) \
+                and -len(n.value.elts) <= n.slice.value < len(n.value.elts) and all(isinstance(x, ast.Constant) for x in n.value.elts):
+            return n.value.elts[n.slice.value]     # (0, k)[1]
+        return n
+
+
 def _text_atom(ctx: RuleCtx, mod: Module, a: Atom, var: str) -> T.Tuple[T.Callable[[str], bool], T.List[str]]:
     """Truth of an atom of split()'s loop body for a *class of requirement texts* given by a representative,
     and the string constants the atom mentions (module-level constant tables are folded)."""
@@ -679,6 +1047,14 @@ def _text_atom(ctx: RuleCtx, mod: Module, a: Atom, var: str) -> T.Tuple[T.Callab
     if a.kind == 'cmp' and a.args[0] == 'eq' and a.args[1] == var and _is_folded(ctx, mod, expr_of(a.args[2])):
         c = _folded(ctx, mod, expr_of(a.args[2]))
         return (lambda t: t == c), []
+    if a.kind == 'truth' or (a.kind == 'is' and a.args[1] == 'None'):
+        lang = _prefix_match_call(ctx, mod, expr_of(a.args[0]), var)
+        if lang is not None:
+            if '' in lang:
+                raise Undecided(f'split: the pattern of {a.args[0]} matches the empty text')
+            if a.kind == 'truth':
+                return (lambda t: any(t.startswith(x) for x in lang)), list(lang)
+            return (lambda t: not any(t.startswith(x) for x in lang)), list(lang)
     if a.kind == 'truth':
         e = expr_of(a.args[0])
         if isinstance(e, ast.Call) and isinstance(e.func, ast.Attribute) and norm(e.func.value) == var and len(e.args) == 1 and _is_folded(ctx, mod, e.args[0]):
@@ -756,7 +1132,22 @@ def r1_split(ctx: RuleCtx) -> None:
     param = fn.args.args[0].arg
     it = loop.iter
     ok_iter = isinstance(it, ast.Call) and isinstance(it.func, ast.Attribute) and it.func.attr == 'split' and [norm(a) for a in it.args] == ["','"] \
-        and names_in(it.func.value) == {param}
+        and not it.keywords and names_in(it.func.value) == {param}
+    if not ok_iter and isinstance(it, ast.Call) and isinstance(it.func, ast.Attribute) and it.func.attr in ('split', 'rsplit') and names_in(it.func.value) == {param} \
+            and len(it.args) <= 2 and all(k.arg in ('sep', 'maxsplit') for k in it.keywords) and all(is_const(a) for a in it.args) and all(is_const(k.value) for k in it.keywords):
+        # str.split / str.rsplit with constant arguments (bound by the builtin's signature sep, maxsplit): every comma must cut, nothing else may
+        bound_ = dict(zip(('sep', 'maxsplit'), (const_of(a) for a in it.args)))
+        bound_.update({k.arg: const_of(k.value) for k in it.keywords if k.arg not in bound_})
+        sep, mx = bound_.get('sep'), bound_.get('maxsplit', -1)
+        if sep == ',' and isinstance(mx, int) and not isinstance(mx, bool) and mx < 0:
+            ok_iter = True     # rsplit without a limit cuts at the same places
+        else:
+            why = (f'the separator is {sep!r}, not ",": a list written as ">=1.2.3,<1.4.7" is not cut at its comma' if sep != ','
+                   else f'at most {mx} cut(s) are made: the comparators after that stay in one part')
+            ctx.violation(mod, 'split', 'the requirement is cut at every comma', f'the parts are produced by `{short(it)}`; {why}, and the SemVer tokenizer reads only the first three '
+                          f'numbers of a part, so the trailing comparators are silently ignored (cargo_parse(">=1.2.3,<1.4.7")("1.5.0") is True). Cargo: a comma list is the '
+                          f'conjunction of all its comparators, white space around the comma is insignificant (the parts are stripped afterwards)', loop)
+            return
     if not ok_iter:
         raise Undecided(f'split: the parts are produced by `{short(loop.iter)}`, not by <requirement>.split(\',\'): a form this rule does not read')
     ctx.ok('split: the requirement is cut at commas')
@@ -789,6 +1180,18 @@ def r1_split(ctx: RuleCtx) -> None:
             if not (isinstance(s0, (ast.Assign, ast.AnnAssign)) or (isinstance(s0, ast.Expr) and isinstance(s0.value, ast.Yield))):
                 raise Undecided(f'split: the row for a part like {text!r} contains `{short(s0)}`, which may produce or change the result in a form this rule does not read')
         ys = yields_of(stmts[1:], [var, src])
+        # a prefix match object is read by what it denotes for this class of texts: the first pattern string (priority order) that is a prefix
+        langs = {norm(c0): _prefix_match_call(ctx, mod, c0, var) for y0 in ys for c0 in ast.walk(y0) if isinstance(c0, ast.Call)}
+        langs = {k0: v0 for k0, v0 in langs.items() if v0 is not None}
+        if len(langs) > 1:
+            raise Undecided(f'split: the row for a part like {text!r} reads several match objects: {sorted(langs)}')
+        if langs:
+            mtext, lang0 = next(iter(langs.items()))
+            hit = [x for x in lang0 if text.startswith(x)]
+            md = _MatchDenote(lambda e0_, mtext=mtext: norm(e0_) == mtext, var, len(hit[0]) if hit else None)     # type: ignore[misc]
+            ys = [ast.fix_missing_locations(md.visit(y0)) for y0 in ys]
+            if md.unmatched_use:
+                raise Undecided(f'split: the row for a part like {text!r} reads the match object `{mtext}` although the pattern does not match such a part')
         ops = [o for o in sorted(OPS, key=len, reverse=True) if text.startswith(o)]
         if text == '*':
             ctx.require(not ys, 'split: a bare * yields nothing', mod, 'split', node, f'a bare `*` part yields {[norm(y) for y in ys]}; Cargo: `*` matches everything (no constraint)', node)
@@ -917,6 +1320,136 @@ def inline_list_builders(mod: Module, body: T.List[ast.stmt], OUT: str, depth: i
         new = [ast.fix_missing_locations(_Rename(names).visit(x)) for x in new]
         out.extend(inline_list_builders(mod, new, OUT, depth + 1))
     return out
+
+
+def _range_n(it: ast.AST) -> T.Optional[int]:
+    """N of `range(N)` / `range(0, N)` with a constant N."""
+    if not (isinstance(it, ast.Call) and norm(it.func) == 'range' and not it.keywords):
+        return None
+    rargs = it.args
+    if len(rargs) == 2 and isinstance(rargs[0], ast.Constant) and rargs[0].value == 0:
+        rargs = rargs[1:]
+    if len(rargs) == 1 and isinstance(rargs[0], ast.Constant) and isinstance(rargs[0].value, int) and not isinstance(rargs[0].value, bool):
+        return rargs[0].value
+    return None
+
+
+def _search_expr(i: str, n: int, test: ast.AST, d: int) -> ast.AST:
+    """`next((I for I in range(N) if T), D)`: the one expression spelling of the first-match search."""
+    gen = ast.GeneratorExp(elt=ast.Name(id=i, ctx=ast.Load()), generators=[ast.comprehension(
+        target=ast.Name(id=i, ctx=ast.Store()), iter=ast.Call(func=ast.Name(id='range', ctx=ast.Load()), args=[ast.Constant(n)], keywords=[]), ifs=[copy.deepcopy(test)], is_async=0)])
+    return ast.fix_missing_locations(ast.Call(func=ast.Name(id='next', ctx=ast.Load()), args=[gen, ast.Constant(d)], keywords=[]))
+
+
+def value_expr(stmts: T.Sequence[ast.stmt]) -> T.Optional[ast.AST]:
+    """A statement list made only of local bindings, tests, returns and the first-match search idioms (catalogue C5/C7/D2/E10), read as the
+    ONE conditional expression it returns: `if T: return A` + `return B` -> `A if T else B`; locals substituted by definition;
+    `for I in range(N): if T(I): return E(I)` + `return E(D)`  and  `for I in range(N): if T(I): break  else: I = D`  ->  I = next((I for ...), D).
+    None when any other statement occurs (the helper is then not a pure value helper for this reading)."""
+    stmts = [x for x in stmts if not isinstance(x, ast.Pass) and not (isinstance(x, ast.Expr) and isinstance(x.value, ast.Constant))]
+    if not stmts:
+        return None
+    st, rest = stmts[0], list(stmts[1:])
+    if any(isinstance(n, (ast.NamedExpr, ast.Yield, ast.YieldFrom, ast.Await, ast.Lambda)) for n in ast.walk(st)):
+        return None
+    if isinstance(st, ast.Return):
+        return copy.deepcopy(st.value) if st.value is not None else None
+
+    def bind(name: str, val: ast.AST, r: T.Optional[ast.AST]) -> T.Optional[ast.AST]:
+        if r is None:
+            return None
+        if any(isinstance(c, ast.comprehension) and name in {x.id for x in ast.walk(c.target) if isinstance(x, ast.Name)} for c in ast.walk(r)):
+            return None     # the local is shadowed by a comprehension variable
+        return resolve(r, {name: val})
+    if isinstance(st, ast.Assign) and len(st.targets) == 1 and isinstance(st.targets[0], ast.Name):
+        return bind(st.targets[0].id, st.value, value_expr(rest))
+    if isinstance(st, ast.AnnAssign) and isinstance(st.target, ast.Name):
+        return bind(st.target.id, st.value, value_expr(rest)) if st.value is not None else value_expr(rest)
+    if isinstance(st, ast.Assert):
+        return value_expr(rest)     # an assertion selects no value
+    if isinstance(st, ast.If):
+        a, b = value_expr(list(st.body) + rest), value_expr(list(st.orelse) + rest)
+        if a is None or b is None:
+            return None
+        return ast.fix_missing_locations(ast.IfExp(test=copy.deepcopy(st.test), body=a, orelse=b))
+    if isinstance(st, ast.For) and isinstance(st.target, ast.Name) and _range_n(st.iter) is not None and len(st.body) == 1 and isinstance(st.body[0], ast.If) \
+            and not st.body[0].orelse and len(st.body[0].body) == 1:
+        i, n, test, act = st.target.id, _range_n(st.iter), st.body[0].test, st.body[0].body[0]
+        assert n is not None
+        if isinstance(act, ast.Return) and act.value is not None:
+            # early return from the search; what follows the loop must be the same expression at a constant default index
+            r = value_expr(list(st.orelse) + rest)
+            if r is None:
+                return None
+            for d in range(0, max(n, 4)):
+                if norm(resolve(act.value, {i: ast.Constant(d)})) == norm(r):
+                    return resolve(act.value, {i: _search_expr(i, n, test, d)})
+            return None
+        if isinstance(act, ast.Break):
+            if st.orelse:
+                if not (len(st.orelse) == 1 and isinstance(st.orelse[0], ast.Assign) and norm(st.orelse[0].targets[0]) == i and isinstance(st.orelse[0].value, ast.Constant)
+                        and isinstance(st.orelse[0].value.value, int)):
+                    return None
+                d = st.orelse[0].value.value
+            else:
+                d = n - 1
+            return bind(i, _search_expr(i, n, test, d), value_expr(rest))
+    return None
+
+
+class _InlineValueCalls(ast.NodeTransformer):
+    """Catalogue E1/E2/E3 at expression level ("move the computation to the class that owns the data"): a call `X.M(args)` of a method that
+    exactly one class of this module defines, or `H(args)` of a module-level function, whose body reads as one conditional expression
+    (value_expr) is replaced by that expression with the parameters bound by signature.  Names in `keep` (anchors a rule reads by role) and
+    everything else stay calls."""
+
+    def __init__(self, mod: Module, keep: T.Iterable[str] = (), depth: int = 0):
+        self.mod, self.keep, self.depth = mod, set(keep), depth
+        self.count = 0
+
+    def _callee(self, c: ast.Call) -> T.Optional[T.Tuple[ast.FunctionDef, T.Optional[ast.AST]]]:
+        if isinstance(c.func, ast.Name) and c.func.id not in self.keep and self.mod.has_func(c.func.id):
+            return nf(self.mod, c.func.id), None
+        if isinstance(c.func, ast.Attribute) and c.func.attr not in self.keep and not (c.func.attr.startswith('__') and c.func.attr.endswith('__')):
+            owners = [q for q, k in self.mod.classes().items() if any(isinstance(x, ast.FunctionDef) and x.name == c.func.attr for x in k.body)]
+            if len(owners) == 1 and isinstance(c.func.value, (ast.Name, ast.Attribute, ast.Call)):
+                return nf(self.mod, f'{owners[0]}.{c.func.attr}'), c.func.value
+        return None
+
+    def visit_Call(self, c: ast.Call) -> ast.AST:
+        self.generic_visit(c)
+        got = self._callee(c)
+        if got is None or self.depth > 3:
+            return c
+        f, recv = got
+        if f.decorator_list or f.args.vararg or f.args.kwarg or (recv is not None and not f.args.args):
+            return c
+        try:
+            bound = bind_call(c, f)
+        except Undecided:
+            return c
+        e = value_expr(f.body)
+        if e is None:
+            return c
+        if recv is not None:
+            bound[f.args.args[0].arg] = recv
+        comp_vars = {x.id for k in ast.walk(e) if isinstance(k, ast.comprehension) for x in ast.walk(k.target) if isinstance(x, ast.Name)}
+        if comp_vars & ({n for a in bound.values() for n in names_in(a)} | set(bound)):
+            return c     # an argument would be captured by a comprehension variable of the helper
+        free = {n.id for n in ast.walk(e) if isinstance(n, ast.Name)} - set(bound) - comp_vars
+        if any(not (hasattr(_builtins, n) or self.mod.has_func(n) or self.mod.has_cls(n) or self.mod.has_assign(n) or n in self.mod.imports()) for n in free):
+            return c     # a local of the helper survived the reading
+        self.count += 1
+        new = ast.fix_missing_locations(ast.copy_location(resolve(e, bound), c))
+        sub = _InlineValueCalls(self.mod, self.keep, self.depth + 1)
+        new = sub.visit(new)
+        self.count += sub.count
+        return new
+
+
+def inline_value_calls(mod: Module, stmts: T.Sequence[ast.AST], keep: T.Iterable[str] = ()) -> T.List[T.Any]:
+    t = _InlineValueCalls(mod, keep)
+    return [ast.fix_missing_locations(t.visit(copy.deepcopy(s))) for s in stmts]
 
 
 class _SearchLoops(ast.NodeTransformer):
@@ -1098,6 +1631,7 @@ def r1_cargo_parse(ctx: RuleCtx) -> None:
     ctx.ok(f'cargo_parse: constraint list `{OUT}` starts empty, pre-release flag `{ACC}` ' + ('is the disjunction of has_prerelease over the appended bounds' if derived_flag else 'starts False'))
     rw = _SearchLoops()
     body = inline_list_builders(mod, [copy.deepcopy(s) for s in loop.body], OUT)     # an extracted ladder is read in place
+    body = inline_value_calls(mod, body, keep=('split', 'next_ver', 'cargo_parse'))     # bounds computed by value helpers / SemVer methods are read in place
     body = [rw.visit(s) for s in body]
     semdef = f'SemVer({vervar})' if fission is None else vervar
     sem0 = [st.targets[0].id for st in loop.body if isinstance(st, ast.Assign) and norm(st.value) == semdef and isinstance(st.targets[0], ast.Name)] if fission is None else [vervar]
@@ -1202,6 +1736,18 @@ def r1_cargo_parse(ctx: RuleCtx) -> None:
                     continue
                 cmpname = attr_chain(pair.elts[0]).split('.')[1]     # type: ignore[union-attr]
                 b = _Replace(semdef, 'V').visit(copy.deepcopy(pair.elts[1]))
+                if semvar != 'V':
+                    b = _Replace(semvar, 'V').visit(b)
+                while isinstance(b, ast.IfExp):
+                    # a bound selected by a test on the requirement's version: the arm of this class
+                    a0, pol0 = tables.canon(b.test, True)
+                    v0 = bool(hp) if a0 == Atom('truth', ('V.has_prerelease',)) else _req_atom(a0, 'V', n, pat)
+                    b = b.body if v0 == pol0 else b.orelse
+                unread = [c0 for c0 in ast.walk(b) if isinstance(c0, ast.Call) and norm(c0.func) not in ('V.next_ver', 'FIRST_NONZERO', 'next', 'range')]
+                if unread:
+                    # closed world: a bound computed by a call this rule could not read in place is not judged
+                    raise Undecided(f'cargo_parse: the bound `{short(pair.elts[1])}` of operator {op!r} is computed by `{short(unread[0])}`, which does not read as one '
+                                    f'conditional expression over the version')
                 if norm(b) == 'V':
                     got.append((cmpname, 'V'))
                 elif isinstance(b, ast.Call) and norm(b.func) == 'V.next_ver' and len(b.args) == 1:
@@ -1863,6 +2409,109 @@ def _guarded_int(e: ast.AST, core: str) -> bool:
     return a.kind == 'truth' and a.args[0] in (f'{core}.isdigit()', f'{core}.isdecimal()') and norm(yes) == f'int({core})' and norm(no) == core
 
 
+def _assembly(ctx: RuleCtx, mod: Module, host: ast.FunctionDef, hq: str, loop: ast.For, vec: str, R: str, P: str, PRE: Atom) -> None:
+    """Split accumulators (release list R, pre-release list P): the statements that follow the token loop join them into the vector.
+    Read along every path in order, with aliases resolved: without a pre-release the vector is R untouched; with one it is R padded to three
+    components, then -1, then P.  The component count must be the length of R *before* the padding (R is usually padded in place)."""
+    def block_of(stmts: T.List[ast.stmt]) -> T.Optional[T.List[ast.stmt]]:
+        if any(x is loop for x in stmts):
+            return stmts
+        for x in stmts:
+            for fld in ('body', 'orelse', 'finalbody'):
+                sub = getattr(x, fld, None)
+                if isinstance(sub, list) and sub and isinstance(sub[0], ast.stmt) and not isinstance(x, (ast.FunctionDef, ast.ClassDef)):
+                    got = block_of(sub)
+                    if got is not None:
+                        return got
+        return None
+    blk = block_of(host.body)
+    if blk is None:
+        raise Undecided(f'{hq}: the block of the token loop was not found')
+    post = blk[[i for i, x in enumerate(blk) if x is loop][0] + 1:]
+    cnt_stores = [s.value.id for s in walk_no_nested(host) if isinstance(s, ast.Assign) and norm(s.targets[0]) == 'self.specified_count' and isinstance(s.value, ast.Name)]
+    if len(cnt_stores) != 1 or not post:
+        raise Undecided(f'{hq}: `self.specified_count = <local>` / the statements joining `{R}` and `{P}` after the token loop were not found')
+    N = cnt_stores[0]
+    tab = tables.extract(host, body=post, effects=eff, inline=False, name=f'{hq}:join')
+    pad_texts = lambda x: (f'{x}.extend([0] * (3 - len({x})))', f'{x}.extend((0,) * (3 - len({x})))', f'{x} += [0] * (3 - len({x}))')     # noqa: E731
+    seen = {True: 0, False: 0}
+    for r in tab.rows:
+        alias: T.Dict[str, str] = {R: R, P: P}     # name -> role of its content (release / pre-release list)
+        obj: T.Dict[str, str] = {R: R, P: P}       # name -> list object (a copy is a new object)
+        seqs: T.Dict[str, T.List[str]] = {R: [], P: []}
+        count_bad: T.Optional[bool] = None
+        pre_val: T.Optional[bool] = None
+        for ev in r.path.events:
+            if ev.kind == 'cond' and ev.node is not None:
+                a, pol = tables.canon(ev.node, True)     # type: ignore[arg-type]
+                v = ev.val == pol
+                if a == PRE:
+                    pre_val = v
+                elif a.kind == 'cmp' and a.args[0] == 'lt' and a.args[2] == '3' and a.args[1].startswith('len(') and alias.get(a.args[1][4:-1]) == R:
+                    if v is False:
+                        seqs[obj[a.args[1][4:-1]]].append('pad')     # exit test of `while len(x) < 3: x.append(0)`
+                    else:
+                        raise Undecided(f'{hq}: `{a!r}` is tested outside a padding loop')
+                else:
+                    raise Undecided(f'{hq}: joining `{R}` and `{P}` tests {a!r}, outside the vocabulary (pre-release flag, padding to three)')
+                continue
+            st = ev.node
+            if ev.kind != 'stmt' or not isinstance(st, ast.stmt):
+                continue
+            txt = norm(st)
+            c = st.value if isinstance(st, ast.Expr) and isinstance(st.value, ast.Call) else None
+            tgt = norm(st.targets[0]) if isinstance(st, ast.Assign) and len(st.targets) == 1 else norm(st.target) if isinstance(st, ast.AnnAssign) and st.value is not None else None
+            val = st.value if isinstance(st, (ast.Assign, ast.AnnAssign)) else None
+            src_, how = (None, None)
+            if val is not None:
+                inner = val.args[0] if isinstance(val, ast.Call) and norm(val.func) == 'list' and len(val.args) == 1 else \
+                    val.func.value if isinstance(val, ast.Call) and isinstance(val.func, ast.Attribute) and val.func.attr == 'copy' and not val.args else \
+                    val.value if isinstance(val, ast.Subscript) and isinstance(val.slice, ast.Slice) and val.slice.lower is None and val.slice.upper is None and val.slice.step is None else \
+                    val.elts[0].value if isinstance(val, ast.List) and len(val.elts) == 1 and isinstance(val.elts[0], ast.Starred) else None
+                if isinstance(val, ast.Name) and val.id in alias:
+                    src_, how = val.id, 'alias'
+                elif isinstance(inner, ast.Name) and inner.id in alias:
+                    src_, how = inner.id, 'copy'
+            recv = norm(c.func.value) if c is not None and isinstance(c.func, ast.Attribute) else None
+            if tgt is not None and src_ is not None:
+                alias[tgt] = alias[src_]
+                if how == 'alias':
+                    obj[tgt] = obj[src_]
+                else:
+                    obj[tgt] = f'{obj[src_]}#{len(seqs)}'
+                    seqs[obj[tgt]] = list(seqs[obj[src_]])
+            elif tgt == N and isinstance(val, ast.Call) and norm(val.func) == 'len' and len(val.args) == 1 and alias.get(norm(val.args[0])) == R:
+                count_bad = bool(seqs[obj[norm(val.args[0])]])     # the list measured was already padded / extended
+            elif c is not None and alias.get(recv or '') == R and c.func.attr == 'append' and len(c.args) == 1 and norm(c.args[0]) == '-1':     # type: ignore[union-attr]
+                seqs[obj[recv]].append('marker')     # type: ignore[index]
+            elif any(txt == t for x, y in alias.items() if y == R for t in pad_texts(x)):
+                seqs[obj[[x for x, y in alias.items() if y == R and txt in pad_texts(x)][0]]].append('pad')
+            elif c is not None and alias.get(recv or '') == R and c.func.attr == 'extend' and len(c.args) == 1 and alias.get(norm(c.args[0])) == P:     # type: ignore[union-attr]
+                seqs[obj[recv]].append('tail')     # type: ignore[index]
+            elif isinstance(st, ast.AugAssign) and isinstance(st.op, ast.Add) and alias.get(norm(st.target)) == R and alias.get(norm(st.value)) == P:
+                seqs[obj[norm(st.target)]].append('tail')
+            elif set(alias) & names_in(st):
+                raise Undecided(f'{hq}: `{short(st)}` uses the release / pre-release lists in a form this rule does not read')
+        if pre_val is None:
+            raise Undecided(f'{hq}: a path joining `{R}` and `{P}` does not test the pre-release flag (row `{r!r}`)')
+        if alias.get(vec) != R:
+            raise Undecided(f'{hq}: the vector `{vec}` is not the release list `{R}` (or a copy of it) on the row `{r!r}`')
+        if count_bad is None:
+            raise Undecided(f'{hq}: `{N} = len({R})` not found on the row `{r!r}`')
+        seq = seqs[obj[vec]]
+        seen[pre_val] += 1
+        node = r.path.events[-1].node if r.path.events else loop
+        want = ['pad', 'marker', 'tail'] if pre_val else []
+        ctx.require(seq == want, f'{hq}: joined vector {"with" if pre_val else "without"} a pre-release: release components{", padding to three, -1, the identifiers" if pre_val else " only"}',
+                    mod, hq, f'pre-release start :: joined vector, pre-release {pre_val}',
+                    f'after the token loop the row `{r!r}` builds the vector from the release list by {seq}; expected {want} (pad = zeros up to three components, marker = -1 in slot 3, '
+                    f'tail = the pre-release identifiers): e.g. SemVer("1-rc")._v must be [1, 0, 0, -1, "rc"]', node)
+        ctx.require(not count_bad, f'{hq}: the component count is the length of the release list before it is padded', mod, hq, 'component count :: length of the release list',
+                    f'`{N} = len(...)` is evaluated after the release list was padded to three components: "1-rc" would count 3 specified components (`<=1-rc`, `~1-rc` bump the wrong one)', node)
+    if not seen[True] or not seen[False]:
+        raise Undecided(f'{hq}: the statements after the token loop do not distinguish versions with and without a pre-release')
+
+
 def r2_tokens(ctx: RuleCtx) -> None:
     mod = ctx.repo.module(VERSION)
     init = nf(mod, 'SemVer.__init__')
@@ -1947,6 +2596,21 @@ def r2_tokens(ctx: RuleCtx) -> None:
     G = {i: Atom('truth', (f'{m}.group({i})',)) for i in (1, 2, 3)}
     counts = [a for a in all_atoms if a.kind == 'cmp' and a.args[0] == 'lt' and a.args[2] == '3' and not a.args[1].startswith('len(')]
     pads = [a for a in all_atoms if a.kind == 'cmp' and a.args[0] == 'lt' and a.args[2] == '3' and a.args[1] == f'len({vec})']
+    # the lists the token loop fills: the vector itself, or (split accumulators) one list for the release components and one for the pre-release
+    # identifiers that are joined after the loop; the component count may then be the length of the release list instead of a counter
+    accs = sorted({norm(c0.func.value) for c0 in ast.walk(loop) if isinstance(c0, ast.Call) and isinstance(c0.func, ast.Attribute) and c0.func.attr in ('append', 'extend')
+                   and isinstance(c0.func.value, ast.Name)} | {norm(s0.target) for s0 in ast.walk(loop) if isinstance(s0, ast.AugAssign) and isinstance(s0.value, (ast.List, ast.Tuple))})
+    ACC_REL = ACC_PRE = vec
+    split_mode = vec not in accs and len(accs) == 2
+    if split_mode:
+        counts = [a for a in all_atoms if a.kind == 'cmp' and a.args[0] == 'lt' and a.args[2] == '3' and a.args[1] in [f'len({x})' for x in accs]]
+        pads = []
+        if len(counts) != 1:
+            raise Undecided(f'{hq}: the token loop fills {accs}; expected one `len(<release list>) < 3` atom, found {counts}')
+        ACC_REL = counts[0].args[1][4:-1]
+        ACC_PRE = [x for x in accs if x != ACC_REL][0]
+    elif accs != [vec]:
+        raise Undecided(f'{hq}: the token loop fills {accs}, not the vector `{vec}` alone or a release / pre-release pair of lists')
     if len(counts) != 1:
         raise Undecided(f'SemVer.__init__: expected one `<count> < 3` atom, found {counts}')
     count = counts[0].args[1]
@@ -1958,8 +2622,9 @@ def r2_tokens(ctx: RuleCtx) -> None:
     pre = flags.pop()
     PRE = Atom('truth', (pre,))
 
-    def appended(r: tables.Row) -> T.List[ast.AST]:
-        _env, rest = propagate(stmts_of(r), opaque=[vec])
+    def appended(r: tables.Row, vec: T.Optional[str] = None) -> T.List[ast.AST]:
+        vec = vec or ACC_PRE
+        _env, rest = propagate(stmts_of(r), opaque=accs)
         out: T.List[ast.AST] = []
         for st in rest:
             c = st.value if isinstance(st, ast.Expr) else None
@@ -1979,7 +2644,7 @@ def r2_tokens(ctx: RuleCtx) -> None:
 
     def node_of(r: tables.Row, payload: T.Optional[str] = None) -> ast.AST:
         for ev in reversed(r.path.events):
-            if ev.kind == 'stmt' and isinstance(ev.node, ast.Expr) and isinstance(ev.node.value, ast.Call) and norm(ev.node.value.func) == f'{vec}.append':
+            if ev.kind == 'stmt' and isinstance(ev.node, ast.Expr) and isinstance(ev.node.value, ast.Call) and norm(ev.node.value.func) in [f'{x}.append' for x in accs]:
                 return ev.node
         return r.path.events[-1].node if r.path.events else loop
     n_rows = {'digit': 0, 'ident': 0, 'build': 0}
@@ -2004,6 +2669,23 @@ def r2_tokens(ctx: RuleCtx) -> None:
             # ---- numeric token
             n_rows['digit'] += 1
             app = [norm(x) for x in appended(r)]
+            if split_mode:
+                # the count is len(release list): an append to that list is the increment, an append to the pre-release list is not counted
+                app_rel, app_pre = [norm(x) for x in appended(r, ACC_REL)], [norm(x) for x in appended(r, ACC_PRE)]
+                if c.get(PRE) is True:
+                    ctx.require(app_pre == [f'int({m}.group(1))'] and not app_rel, 'digit token inside the pre-release section: appended as int, not counted as a release component', mod,
+                                hq, f'digit token, pre-release :: {norm(node)}', f'row `{r!r}` appends {app_pre} to the pre-release list and {app_rel} to the release list (whose length is '
+                                f'the component count); expected [int({m}.group(1))] and nothing', node)
+                elif c.get(PRE) is False and c.get(counts[0]) is True:
+                    ctx.require(app_rel == [f'int({m}.group(1))'] and not app_pre, 'digit token among the first three components: appended as int and counted', mod, hq,
+                                f'digit token, release part :: {norm(node)}', f'row `{r!r}` appends {app_rel} to the release list and {app_pre} to the pre-release list; expected '
+                                f'[int({m}.group(1))] and nothing', node)
+                elif c.get(PRE) is False and c.get(counts[0]) is False:
+                    pass
+                else:
+                    ctx.violation(mod, hq, f'digit token :: {norm(node)}', f'row `{r!r}` handles a digit token without distinguishing the pre-release section from the '
+                                  f'three release components (tests seen: {[repr(a) for a in c]})', node)
+                continue
             incs = [s for s in stmts_of(r) if isinstance(s, ast.AugAssign) and norm(s.target) == count]
             for s0 in stmts_of(r):     # `count = count + 1` is the same increment
                 if isinstance(s0, ast.Assign) and norm(s0.targets[0]) == count and norm(s0.value) in (f'{count} + 1', f'1 + {count}'):
@@ -2030,6 +2712,10 @@ def r2_tokens(ctx: RuleCtx) -> None:
                 continue    # e.g. a lone '-': outside the grammar, skipped
             env, _rest = propagate(stmts_of(r))
             app_nodes = appended(r)
+            if split_mode and appended(r, ACC_REL):
+                ctx.violation(mod, hq, f'identifier token :: {norm(node)}', f'row `{r!r}` appends {[norm(x) for x in appended(r, ACC_REL)]} to the release list `{ACC_REL}` for an '
+                              f'identifier token (its length is the component count)', node)
+                continue
             strip_atoms = [(a, v) for a, v in c.items() if a.kind == 'truth' and '.startswith(' in a.args[0]]
             lead_atoms = [(a, v) for a, v in c.items() if a.kind == 'cmp' and a.args[0] == 'eq' and is_const(expr_of(a.args[2])) and isinstance(const_of(expr_of(a.args[2])), str)
                           and isinstance(expr_of(a.args[1]), ast.Subscript) and _leading_len(expr_of(a.args[1]), norm(expr_of(a.args[1]).value)) == len(const_of(expr_of(a.args[2])))]     # type: ignore[attr-defined]
@@ -2070,9 +2756,14 @@ def r2_tokens(ctx: RuleCtx) -> None:
                 if not padded and any(vec in names_in(st0) and not norm(st0).startswith(f'{vec}.append(') for st0 in before_marker):
                     raise Undecided(f'{hq}: `{short(before_marker[-1])}` may pad the release part in a form this rule does not read')
                 sets = [s for s in stmts_of(r) if isinstance(s, ast.Assign) and norm(s.targets[0]) == pre and norm(s.value) == 'True']
-                ctx.require(marker == ['-1'] and padded and bool(sets), 'first identifier: release part padded to three, slot 3 = -1, pre-release state entered', mod, hq,
-                            f'pre-release start :: {norm(node)}', f'row `{r!r}`: values appended before the identifier {marker} (expected [-1]), padded to three components: {padded}, '
-                            f'state flag set: {bool(sets)}', node)
+                if split_mode:
+                    # padding and the -1 marker are emitted once, where the two lists are joined (judged by _assembly below)
+                    ctx.require(not marker and bool(sets), 'first identifier: pre-release state entered, identifier starts the pre-release list', mod, hq,
+                                f'pre-release start :: {norm(node)}', f'row `{r!r}`: values appended before the identifier {marker} (expected none), state flag set: {bool(sets)}', node)
+                else:
+                  ctx.require(marker == ['-1'] and padded and bool(sets), 'first identifier: release part padded to three, slot 3 = -1, pre-release state entered', mod, hq,
+                              f'pre-release start :: {norm(node)}', f'row `{r!r}`: values appended before the identifier {marker} (expected [-1]), padded to three components: {padded}, '
+                              f'state flag set: {bool(sets)}', node)
             elif c.get(PRE) is True:
                 ctx.require(len(app_nodes) == 1 and not prefix, 'identifier inside the pre-release section: appended as is', mod, hq, f'identifier, pre-release :: {norm(node)}',
                             f'row `{r!r}` appends {[norm(x) for x in app_nodes]} (stripped prefix {prefix!r}); expected the identifier alone, unstripped', node)
@@ -2093,6 +2784,8 @@ def r2_tokens(ctx: RuleCtx) -> None:
             n_rows['build'] += 1
             ctx.require(r.outcome == ('break',) and not appended(r), 'build metadata token stops tokenisation', mod, hq, f'build token :: {norm(node)}',
                         f'row `{r!r}` leaves by {r.outcome} after appending {[norm(x) for x in appended(r)]}; "+build" must end the scan (break) without storing anything', node)
+    if split_mode:
+        _assembly(ctx, mod, host, hq, loop, vec, ACC_REL, ACC_PRE, PRE)
     ctx.floor('tokenizer rows: digit', n_rows['digit'], 1)
     ctx.floor('tokenizer rows: identifier', n_rows['ident'], 1)
     ctx.floor('tokenizer rows: build', n_rows['build'], 1)
@@ -2118,7 +2811,7 @@ def r2_tokens(ctx: RuleCtx) -> None:
                     if isinstance(n, ast.Name) and isinstance(n.ctx, ast.Store):
                         seen_store.add(n.id)
         stored = {n.id for st in body for n in ast.walk(st) if isinstance(n, ast.Name) and isinstance(n.ctx, ast.Store)}
-        state = (carried & stored) - {pre, count, vec}
+        state = (carried & stored) - {pre, count, vec, ACC_REL, ACC_PRE}
         if not uses <= {'group', 'groups', 'lastgroup', 'lastindex'} or len(other_m) != sum(1 for n in ast.walk(ast.Module(body=body, type_ignores=[])) if isinstance(n, ast.Attribute) and norm(n.value) == m) or state:
             raise Undecided(f'{hq}: the token loop reads {sorted(uses - {"group", "groups", "lastgroup", "lastindex"})} of the match / carries {sorted(state)} between tokens: '
                             f'it may rejoin adjacent tokens in a form this rule does not read')
@@ -2410,6 +3103,7 @@ def _lexer_table(ctx: RuleCtx, mod: Module) -> T.Dict[str, str]:
     START = norm(wdef.value.slice.lower) if wdef.value.slice.lower is not None else None     # type: ignore[attr-defined]
     if START is None:
         raise Undecided('lexer: the word does not start at a tracked index')
+    WDEF = norm(_Rename({raw: ast.Name(id='ARG1', ctx=ast.Load())}).visit(copy.deepcopy(wdef.value)))     # `raw[start:i]`: what the word denotes when no start-index write lies between
 
     helpers = _word_helpers(ctx, mod, body, W)
 
@@ -2465,7 +3159,16 @@ def _lexer_table(ctx: RuleCtx, mod: Module) -> T.Dict[str, str]:
         for st in sts:
             if isinstance(st, ast.Expr) and not isinstance(st.value, ast.Yield):
                 raise Undecided(f'lexer: the row contains `{short(st)}`, which may produce tokens in a form this rule does not read')
-        ys = [norm(table_lookup(st.value.value, s_cls, w_cls)) for st in sts if isinstance(st, ast.Expr) and isinstance(st.value, ast.Yield)]
+        # payloads are compared by what they denote: the word local and a direct slice `raw[start:i]` are one thing.  The word is read where
+        # the row binds it (before the start index moves); a slice written out in a yield is read at the yield (reaching definitions).
+        envp: T.Dict[str, ast.AST] = {}
+        ys = []
+        for st in sts:
+            if isinstance(st, ast.Expr) and isinstance(st.value, ast.Yield):
+                yv = resolve(table_lookup(st.value.value, s_cls, w_cls), {k0: v0 for k0, v0 in envp.items() if k0 != W})
+                ys.append(norm(_Replace(WDEF, W).visit(yv)) if W not in envp or norm(envp[W]) == WDEF else norm(yv))
+            elif isinstance(st, ast.Assign) and len(st.targets) == 1 and isinstance(st.targets[0], ast.Name):
+                envp[st.targets[0].id] = resolve(st.value, {k0: v0 for k0, v0 in envp.items() if k0 != W})
         writes = {norm(st.targets[0]): norm(st.value) for st in sts if isinstance(st, ast.Assign) and norm(st.targets[0]) in (START, F)}
         if writes.get(F) == f'not {F}':
             writes[F] = str(not in_str)     # toggling the flag in a world where its value is known
@@ -3176,7 +3879,8 @@ def r4_escape(ctx: RuleCtx) -> None:
                     ny += 1
                     pv = norm(y.elts[1])
                     defs = [s for s in walk_no_nested(lex) if isinstance(s, ast.Assign) and norm(s.targets[0]) == pv]
-                    sliced = bool(defs) and all(isinstance(d.value, ast.Subscript) and norm(d.value.value) == raw and isinstance(d.value.slice, ast.Slice) for d in defs)
+                    is_slice = lambda e: isinstance(e, ast.Subscript) and norm(e.value) in (raw, 'ARG1') and isinstance(e.slice, ast.Slice)     # noqa: E731
+                    sliced = (bool(defs) and all(is_slice(d.value) for d in defs)) or is_slice(y.elts[1])     # a local bound to slices of the input, or the slice written out
                     guarded = r.conds.get(Atom('truth', (pv,))) is True or r.conds.get(Atom('cmp', ('eq', pv, "''"))) is False
                     if not sliced or (mem == 'IDENTIFIER' and not guarded):
                         okp = False
